@@ -392,7 +392,7 @@ def main():
     c.cov["scan_wall_s"] = round(time.time() - t_start, 1)
     size_of = {r["path"]: r["size"] for r in chosen}
     alljobs = sorted(jobs + variants, key=lambda j: (size_of[j["path"]], j["id"]))
-    res = par("compare", alljobs, "jobs", dict(reserved=reserved, cpu_budget=int(os.environ.get("VERIF_C09_BUDGET", (800 // NPROC) if quick else 2000 * 16 // NPROC))))
+    res = par("compare", alljobs, "jobs", dict(reserved=reserved, cpu_budget=int(os.environ.get("VERIF_C09_BUDGET", (800 // NPROC) if quick else 900 * 16 // NPROC))))
     byid = {j["id"]: j for j in jobs + variants}
     for r in res:
         j = byid[r["id"]]
